@@ -83,7 +83,8 @@ def gen_problem(rng, easy, chk):
     exc = {}
     for _ in range(rng.randint(0, 3)):
         xy = (rng.randrange(w), rng.randrange(h))
-        if xy not in dead:
+        # (an entry for a dead chip is what is left when a chip of a discovered machine is marked dead afterwards)
+        if xy not in dead or rng.random() < 0.5:
             keys = list(resources)
             rng.shuffle(keys)                  # the order of a dictionary's keys means nothing
             exc[xy] = {r: rng.randint(0, 7) for r in keys}
@@ -115,8 +116,15 @@ def gen_problem(rng, easy, chk):
         fill = rng.choice((0.3, 0.7, 1.0, 1.0))
         nv = int(total[r0] * fill)
         nv = max(0, min(nv, total[r0]))
-        for i in range(nv):
-            vr["v%d" % i] = {r0: 1} if rng.random() < 0.9 else ({r0: 0} if rng.random() < 0.5 else {})
+        # vertices needing nothing come on top of the unit vertices (so the machine can be exactly full AND still
+        # have to take them), anywhere in the dictionary's order
+        needs = [{r0: 1} if rng.random() < 0.93 else ({r0: 0} if rng.random() < 0.5 else {}) for i in range(nv)]
+        needs += [({r0: 0} if rng.random() < 0.5 else {}) for _ in range(rng.choice((0, 0, 1, 2, 4)))]
+        rng.shuffle(needs)
+        if rng.random() < 0.3:
+            needs.sort(key=lambda d: d.get(r0, 0), reverse=True)      # the ones needing nothing last
+        for i, d in enumerate(needs):
+            vr["v%d" % i] = d
         # located vertices that fit on their chips
         left = {xy: free[xy][r0] for xy in chips}
         for v in list(vr)[:rng.randint(0, 4)]:
